@@ -108,10 +108,12 @@ def split_specs(specs):
     for sp in specs:
         if sp.get('K', 0) >= 2 and len(sp.get('ops', [])) >= 2:
             for i in range(len(sp['ops'])):
-                s2 = dict(sp)
-                s2['first_op'] = i
-                s2['name'] = f'{sp["name"]}/first={"-".join(str(x) for x in sp["ops"][i])}'
-                out.append(s2)
+                for pos in sp.get('positions', ('pre', 'end', 'mid')):
+                    s2 = dict(sp)
+                    s2['first_op'] = i
+                    s2['first_pos'] = pos
+                    s2['name'] = f'{sp["name"]}/first={"-".join(str(x) for x in sp["ops"][i])}@{pos}'
+                    out.append(s2)
         else:
             out.append(sp)
     return out
@@ -240,6 +242,7 @@ class C11(Check):
     def jobs(self, tier):
         K = 1 if tier == 'quick' else 2
         specs = [S.RES(K), S.RES(K, r=2, q=0), S.RES(K + 1, horizon=4), S.RES_SER(K), S.RES_SER(K + 1, horizon=4),
+                 S.RES2(K, horizon=5 if K == 1 else 4),
                  S.GRP2(K, horizon=4, resources=True), S.GRPPAR(K, horizon=4, resources=True), S.RES_MAINT(K + 1)]
         return _line_jobs(specs, ['resources'], tier)
 
